@@ -24,6 +24,7 @@ TraceInit == Init /\ tid = 1 /\ l = 1 /\ bad = FALSE
 Act(ev) == CASE ev.a = "set" -> Set(ev.k, V(ev.v))
              [] ev.a = "del" -> Del(ev.k)
              [] ev.a = "delsub" -> DelSub(ev.k)
+             [] ev.a = "checkout" -> \E p \in past : p.r = InflateB(ev.root) /\ Checkout(p)
 
 Clauses(ev) ==
   LET obs == InflateB(ev.st.root)
@@ -33,7 +34,8 @@ Clauses(ev) ==
    \* anything the property lets it refuse, everything else succeeds
    <<"C12.refusal", CASE ev.a = "set" -> (ev.ok <=> ~Conflict(contents, ev.k))
                       [] ev.a = "del" -> (~ev.ok => ModelVal(contents, ev.k) = NoVal)
-                      [] ev.a = "delsub" -> (~ev.ok => ~startsSome)>>,
+                      [] ev.a = "delsub" -> (~ev.ok => ~startsSome)
+                      [] OTHER -> ev.ok>>,
    \* a call that raises raises NodeOverrideError (anything else is logged as crash, with ok = FALSE)
    <<"C12.refusal-type", ~ev.crash>>,
    <<"C12.raise-unchanged", ~ev.ok => obs = root>>,
